@@ -65,6 +65,12 @@ class Gen:
         self.max_width = max_width
         self.k = 0
         self.entries = [e for e in usable_entries() if e.name not in exclude]
+        try:
+            from . import seqcat
+            # Sequence is refused by the generator (its clock method cannot be transpiled): keep designs generatable
+            self.seq_entries = [e for e in seqcat.ENTRIES if e.name not in ('Sequence',) and e.name not in exclude]
+        except ImportError:
+            self.seq_entries = []
 
     def fresh(self, prefix='n'):
         self.k += 1
@@ -129,7 +135,25 @@ class Gen:
                 if not out_map:
                     continue
                 sc['nodes'].append(dict(kind='sub', inst=self.fresh('u'), scope=sub, in_map=in_map, out_map=out_map))
-            elif r < 0.30:
+            elif r < 0.20 and self.seq_entries:
+                e = rnd.choice(self.seq_entries)
+                cfgs = [c for c in e.quick if all(w <= self.max_width for w in list(e.ports(c)[0].values()) + list(e.ports(c)[1].values()))
+                        and len(e.ports(c)[0]) + len(e.ports(c)[1]) <= 10]
+                if not cfgs:
+                    continue
+                cfg = rnd.choice(cfgs)
+                pi, po = e.ports(cfg)
+                ins = {k: pick_net(w) for k, w in pi.items()}
+                outs = {}
+                newnets = []
+                for k, w in po.items():
+                    o = self.fresh('n')
+                    sc['locals'].append([o, w])
+                    newnets.append((o, w))
+                    outs[k] = o
+                pool.extend(newnets)
+                sc['nodes'].append(dict(kind='seq', entry=e.name, cfg=cfg, inst=self.fresh('s'), ins=ins, outs=outs))
+            elif r < 0.36:
                 w = rnd.choice([1, 2, 4, 8])
                 q = self.fresh('q')
                 sc['locals'].append([q, w])
@@ -235,6 +259,11 @@ def _build_scope(owner, logic, sc, nets, order=None):
             py4hw.Reg(logic, node['inst'], nets[node['d']], nets[node['q']],
                       enable=nets[node['e']] if node['e'] else None, reset=nets[node['r']] if node['r'] else None,
                       reset_value=node['rv'])
+        elif k == 'seq':
+            from . import seqcat
+            e = seqcat.by_name(node['entry'])
+            cfg = seqcat.cfg_from_json(node['cfg']) if hasattr(seqcat, 'cfg_from_json') else _tup(node['cfg'])
+            e.make(logic, node['inst'], cfg, {p_: nets[n] for p_, n in node['ins'].items()}, {p_: nets[n] for p_, n in node['outs'].items()})
         elif k == 'sub':
             sub = node['scope']
             C = cosim.Dut.cls(sub['cls'])
